@@ -235,28 +235,33 @@ func (d *drv) waitLoad(okBefore, failBefore int) (bool, error) {
 	return false, errors.New("no load result in the log within 10s")
 }
 
-// waitSecond: after two SIGHUPs in a row the server either took both (two "SIGHUP received" lines: then two load results
-// must follow) or the kernel/runtime merged them into one (the signal channel holds one pending signal).  A reload that was
-// started and never reports a result is an error.
+// waitSecond: after two SIGHUPs in a row the first reload has reported its result.  The server may run a second reload (the
+// signal channel holds one pending signal) or fold the two requests into one: wait until whatever it does has settled (a
+// result for every reload it announced, or nothing new for a while).  What a reload leaves behind is judged by the probes
+// and by the next load, not here.
 func (d *drv) waitSecond(hupBefore, okBefore, failBefore int) error {
-	deadline := time.Now().Add(10 * time.Second)
-	quietSince := time.Now()
+	deadline := time.Now().Add(4 * time.Second)
+	last, lastChange := -1, time.Now()
 	for time.Now().Before(deadline) {
 		received := d.logCount("SIGHUP received") - hupBefore
-		done := d.logCount("Loaded config.") - okBefore + d.logCount("Failed to update server") - failBefore
+		loaded := d.logCount("Loaded config.") - okBefore
+		done := loaded + d.logCount("Failed to update server") - failBefore
 		if !d.alive() {
 			return errors.New("process exited after the second SIGHUP")
 		}
-		if received >= 2 && done >= 2 {
-			if d.logCount("Stopped all listeners for running config.") >= d.logCount("Loaded config.")-1 {
-				return nil
-			}
-		} else if received < 2 && done >= 1 && time.Since(quietSince) > 700*time.Millisecond {
-			return nil // the two signals were merged into one reload
+		if sum := received*1000 + done; sum != last {
+			last, lastChange = sum, time.Now()
+		}
+		settled := done >= received && d.logCount("Stopped all listeners for running config.") >= d.logCount("Loaded config.")-1
+		if settled && time.Since(lastChange) > 300*time.Millisecond {
+			return nil
+		}
+		if time.Since(lastChange) > 1500*time.Millisecond {
+			return nil
 		}
 		time.Sleep(2 * time.Millisecond)
 	}
-	return errors.New("a reload requested by the second of two SIGHUPs did not report a result within 10s")
+	return nil
 }
 
 var labelRe = regexp.MustCompile(`([a-zA-Z_][a-zA-Z0-9_]*)="([^"]*)"`)
@@ -634,7 +639,7 @@ func (d *drv) run(sc vScenario) {
 	d.verbose = sc.Verbose
 	d.fill = 0
 	if sc.Burst {
-		d.fill = 2500
+		d.fill = 6000
 	}
 	d.tr.Emit(map[string]any{"ev": "Scenario", "id": sc.ID, "replay": sc.Replay, "verbose": sc.Verbose})
 	started := false
@@ -668,7 +673,8 @@ func (d *drv) run(sc vScenario) {
 				d.cmd.Process.Signal(syscall.SIGHUP)
 				// back to back (both reloads then run their steps almost at the same time, if the server lets them) up to
 				// well inside the first reload
-				time.Sleep([]time.Duration{0, 200 * time.Microsecond, time.Millisecond, 5 * time.Millisecond, 20 * time.Millisecond, 50 * time.Millisecond}[(nload+sc.ID)%6])
+				time.Sleep([]time.Duration{0, 200 * time.Microsecond, time.Millisecond, 5 * time.Millisecond, 20 * time.Millisecond, 50 * time.Millisecond,
+					105 * time.Millisecond, 130 * time.Millisecond, 160 * time.Millisecond}[(nload+sc.ID)%9])
 				d.cmd.Process.Signal(syscall.SIGHUP)
 				ok, err = d.waitLoad(okB, failB)
 				if err == nil {
